@@ -1292,10 +1292,14 @@ class Interp:
             self._ignored_options("method:" + f.name, f.recv, kw_, res_, node, n0_)
             return res_
         if isinstance(f, Ref):
+            # np.delete(arr=a, obj=i) is np.delete(a, i): leading parameters given by keyword are ALSO put at their positions (read through the
+            # library's signature), so models and rules find them under either spelling
+            args, moved_ = _library_positional(f.name, args, kwargs)
             self.record("call", f.name, args, dict(kwargs), node)
             if f.name in self.summaries:
                 return self.summaries[f.name](self, args, kwargs, node, fr)
             kw_ = KW(kwargs)
+            kw_.seen.update(moved_)
             n0_ = len(self.events)
             res_ = self.lib.call_ref(self, f.name, args, kw_, node, fr)
             self._ignored_options(f.name, None, kw_, res_, node, n0_ + 0)
@@ -1321,6 +1325,51 @@ IGNORED_OPTIONS_OK = {("builtins.sorted", "key"), ("builtins.sorted", "reverse")
 
 
 _LIBDEF = {}
+_LIBSIG = {}
+
+
+def _library_positional(dotted, args, kwargs):
+    """the leading parameters of an installed library function given by keyword, moved to their positions (as long as every earlier
+    parameter is given): the models and the rules then read one spelling of the call.  Unknown functions / signatures: unchanged"""
+    if not kwargs or not dotted.startswith(("numpy.", "scipy.", "skimage.", "pandas.", "sklearn.", "mrcfile.", "emfile.")):
+        return args, ()
+    if dotted not in _LIBSIG:
+        _LIBSIG[dotted] = None
+        try:
+            import importlib
+            import inspect
+            parts = dotted.split(".")
+            obj, rest = None, []
+            for i in range(len(parts), 0, -1):
+                try:
+                    obj = importlib.import_module(".".join(parts[:i]))
+                    rest = parts[i:]
+                    break
+                except ImportError:
+                    continue
+            for a in rest:
+                obj = getattr(obj, a)
+            if not inspect.isclass(obj):
+                ps = list(inspect.signature(obj).parameters.values())
+                lead = []
+                for p_ in ps:
+                    # only the required leading parameters (the data the call works on): an option with a default stays an option, so that
+                    # one the model does not interpret is still noticed (OX.K)
+                    if p_.kind in (inspect.Parameter.POSITIONAL_ONLY, inspect.Parameter.POSITIONAL_OR_KEYWORD) and p_.default is inspect.Parameter.empty:
+                        lead.append(p_.name)
+                    else:
+                        break
+                _LIBSIG[dotted] = lead
+        except Exception:  # noqa
+            _LIBSIG[dotted] = None
+    lead = _LIBSIG[dotted]
+    if not lead:
+        return args, ()
+    args, moved = list(args), []
+    while len(args) < len(lead) and lead[len(args)] in kwargs:
+        moved.append(lead[len(args)])
+        args.append(kwargs[lead[len(args)]])
+    return args, moved
 
 
 def _library_default(dotted, option, value):
